@@ -422,7 +422,7 @@ where
         "eq_aa_a": aa.0 == a, "eq_ab_ba": ab.0 == ba.0, "eq_assoc": ab_c.0 == a_bc.0,
         "eq_ab_a": ab.0 == a, "eq_ba_b": ba.0 == b,
         "cmp_ab": ord_json(a.partial_cmp(&b)), "cmp_ba": ord_json(b.partial_cmp(&a)), "eq_ab": a == b,
-        "bot_a": a.is_bot(), "top_a": a.is_top(),
+        "bot_a": a.is_bot(), "top_a": a.is_top(), "bot_b": b.is_bot(), "top_b": b.is_top(),
         "owned_ok": owned_ok,
     })
 }
